@@ -345,6 +345,31 @@ class CFG:
                 out[e.id] = (min(lo, cap), hi)
         return out
 
+    def reach_product(self, start: Node, init_state, step: Callable[[Node, Optional[str], "Node", object], object],
+                      blocked: Iterable[Node] = (), blocked_edges: Iterable[Tuple[int, Optional[str]]] = (),
+                      ignore_labels: Iterable[str] = ()) -> Set[Tuple[int, object]]:
+        """Path-sensitive reachability over (node, abstract state) pairs.  ``step(src, label, dst, state)`` returns
+        the state after executing ``src`` and taking the edge, or None when that edge is infeasible in ``state``.
+        States must be hashable and come from a finite set."""
+        blk = {n.id for n in blocked}
+        bedges = set(blocked_edges)
+        ign = set(ignore_labels)
+        seen: Set[Tuple[int, object]] = {(start.id, init_state)}
+        stack = [(start, init_state)]
+        while stack:
+            n, st = stack.pop()
+            for (m, lab) in n.succ:
+                if lab in ign or (n.id, lab) in bedges or m.id in blk:
+                    continue
+                ns = step(n, lab, m, st)
+                if ns is None:
+                    continue
+                key = (m.id, ns)
+                if key not in seen:
+                    seen.add(key)
+                    stack.append((m, ns))
+        return seen
+
     def paths_count(self) -> int:
         return sum(len(n.succ) for n in self.nodes)
 
